@@ -918,7 +918,7 @@ theorem dec_correct (ok : m.Ok) (gk : GOk m g) {q : Nat} (hq : q < 2 ^ m.P) (hin
         else m.up (extL g) (extR g) q fuel s0 1 (leftQ m g s0) false) with
       | .error e => .error e
       | .ok (s, l, right) =>
-        if wsub m.B right l = 0 then .error (.fault (.ub "quant.dec.nonzero"))
+        if wsub m.B right l = 0 then .error (.fault (.panic "quant.dec.expect"))
         else .ok (s, l, wsub m.B right l))
         = (.ok (a, leftQ m g a, widthQ m g a) : SM (Int × Nat × Nat)) := by
     intro s0 h1 h2
